@@ -317,3 +317,42 @@ def derive(g: Grammar, rule: str, universe: str = "0129azAZ_ .-", max_rep: int =
 
     res = alts(g.rules.get(rule, []), depth)
     return res, trunc[0]
+
+
+def sample(g: Grammar, rule: str, rnd, universe: str = "0129azAZ_ .-", max_rep: int = 3, ws=("", " "), depth: int = 0) -> str | None:
+    """One random derivation of `rule` (None if it runs into an undefined rule or too deep recursion)."""
+    def alts(a_list, d):
+        if not a_list:
+            return None
+        return seq(a_list[rnd.randrange(len(a_list))], d)
+
+    def elem(k, p, d):
+        if k == "lit":
+            return p
+        if k == "class":
+            m = class_members(p[0], p[1], universe)
+            return m[rnd.randrange(len(m))] if m else None
+        if k == "any":
+            return universe[rnd.randrange(len(universe))]
+        if k == "group":
+            return alts(p, d)
+        if k == "ref":
+            if p == "ws":
+                return ws[rnd.randrange(len(ws))]
+            if d > 8 or p not in g.rules:
+                return None
+            return alts(g.rules[p], d + 1)
+        return None
+
+    def seq(a, d):
+        out = []
+        for k, p, (lo, hi) in a:
+            top = hi if hi is not None else max(lo, max_rep)
+            for _ in range(rnd.randint(lo, top)):
+                x = elem(k, p, d)
+                if x is None:
+                    return None
+                out.append(x)
+        return "".join(out)
+
+    return alts(g.rules.get(rule, []), depth)
